@@ -682,3 +682,22 @@ def c16(run):
 
 
 MODES["C16"] = "csv"
+
+
+# ------------------------------------------------------------------ C18
+@check("C18")
+def c18(run):
+    run.rule = ("spec/ImportCamt.tla: consistent statements of 1-2 entries (thorough 3): credit/debit x amounts {1.00, 10.50, 2.00 as 1+1, 10.50 as 10+0.50, "
+                "10.50 with an included charge of 0.50, 1234.56 as a one-detail batch} x value date before/equal to booking date, opening balance "
+                "0 / 1000.00 / -50.00 (debit balance), both row orders; non-trivial = statements with a batch")
+    run.assumptions += ["single-currency statements; charges are of the `included` kind and come with transaction amount details (TxAmt = amount - charge), on debits",
+                        "the date of the opening-balance transaction is not compared (the statement does not say)",
+                        "the account is given the opening balance by a funding transaction before the imported ledger is processed"]
+    cfg = "ImportCamt_quick.cfg" if run.tier == "quick" else "ImportCamt_thorough.cfg"
+    nd, n, st = tlc_gen("MCImportCamt.tla", cfg, "C18-gen", workers=8, timeout=2400)
+    run.add_model(st)
+    feed(run, "camt", nd)
+    run.exhaustive = True
+
+
+MODES["C18"] = "camt"
